@@ -29,6 +29,9 @@ func ParseErc20Lock(erc20list []ERC20Token, rawEthTx []byte) (*LockErcRequest, e
 	if err != nil {
 		return ercParams, err
 	}
+	if ethTx.To() == nil {
+		return ercParams, errors.New("eth txn has no recipient")
+	}
 	token, err := GetToken(erc20list, *ethTx.To())
 	if err != nil {
 		return ercParams, err
